@@ -477,7 +477,14 @@ func runAssignTarget(c *Ctx, r *Reporter) {
 	}
 	sf := p.SSAFunc(fd.Obj)
 	n := 0
-	for _, b := range sf.Blocks {
+	// the loop over the suffixes of the target may live in a helper of parseAssignmentTarget
+	var blocks []*ssa.BasicBlock
+	for _, h := range regionFns(sf, 2, map[string]bool{"parseIndexOrSliceExpr": true, "parseDotExpr": true, "parseExpr": true, "parseTopLevelExpr": true}) {
+		if h.Pkg == sf.Pkg {
+			blocks = append(blocks, h.Blocks...)
+		}
+	}
+	for _, b := range blocks {
 		for _, ins := range b.Instrs {
 			call, ok := ins.(*ssa.Call)
 			if !ok || call.Call.StaticCallee() == nil || call.Call.StaticCallee().Name() != "parseIndexOrSliceExpr" || len(call.Call.Args) < 2 {
